@@ -46,6 +46,17 @@ def loops(body):
                         info["kind"] = 'vec' if mm.group(2) == '[]' else 'map'
                         info["target"] = mm.group(1)
                         break
+                    ma = re.search(r'^\s*if length < 0 \|\| int64\(length\) > (\d+) \{', lines[j])
+                    if ma:
+                        # a fixed array: no allocation, the announced length is checked against the array size
+                        info["kind"] = 'arr'
+                        info["n"] = int(ma.group(1))
+                        for jj in range(i + 1, min(i + 6, len(lines))):
+                            mt = re.search(r'(st\.\w+)\[%s\]' % info["idx"], lines[jj])
+                            if mt:
+                                info["target"] = mt.group(1)
+                                break
+                        break
             res.append(info)
             stack.append((len(res) - 1, ind))
     return res
@@ -56,6 +67,8 @@ def loop_clauses(body):
     out = []
     def own(info):
         c = []
+        if info["kind"] == "arr":
+            c.append("%s <= %d" % (info["bound"], info["n"]))
         if info["kind"] == "vec":
             c.append("len(%s) == %s" % (info["target"], info["bound"]))
         elif info["kind"] == "map":
@@ -75,6 +88,8 @@ def loop_clauses(body):
         # (the shared `length` cell, objects allocated by the iteration)
         if info["kind"] == "vec":
             out.append("//@   loop %d modifies elems(%s), readBuf.buf.i, readBuf.depth" % (k, info["target"]))
+        elif info["kind"] == "arr":
+            out.append("//@   loop %d modifies %s, readBuf.buf.i, readBuf.depth" % (k, info["target"] or "*st"))
         elif info["kind"] == "map" and info["parents"]:
             out.append("//@   loop %d modifies mapcells(%s), readBuf.buf.i, readBuf.depth" % (k, info["target"]))
         out.append("//@   loop %d invariant [C05] %s" % (k, " && ".join(inv)))
@@ -146,11 +161,13 @@ def idl_structs(pkg):
     out = {}
     for m in re.finditer(r'\bstruct\s+(\w+)\s*\{(.*?)\}\s*;', text, re.S):
         mem = []
-        for mm in re.finditer(r'(\d+)\s+(require|optional)\s+([^;=]+?)\s+(\w+)\s*(?:=\s*([^;]+?))?\s*;', m.group(2)):
+        for mm in re.finditer(r'(\d+)\s+(require|optional)\s+([^;=]+?)\s+(\w+)\s*(\[\s*\d+\s*\])?\s*(?:=\s*([^;]+?))?\s*;', m.group(2)):
             ty = re.sub(r'\s+', ' ', mm.group(3).strip())
             if ty in enums:
                 ty = "enum"
-            mem.append((int(mm.group(1)), mm.group(2) == "require", ty, mm.group(4), mm.group(5).strip() if mm.group(5) else None))
+            if mm.group(5):
+                ty = "array<%s>" % ty  # fixed array T name[N]: on the wire a LIST like vector<T>
+            mem.append((int(mm.group(1)), mm.group(2) == "require", ty, mm.group(4), mm.group(6).strip() if mm.group(6) else None))
         out[m.group(1)] = mem
     return out
 
@@ -231,13 +248,53 @@ def parse_type(t):
                 cur += ch
         out.append(cur)
         return [y.strip() for y in out]
-    m = re.match(r'^(map|vector)\s*<(.*)>$', t, re.S)
+    m = re.match(r'^(map|vector|array)\s*<(.*)>$', t, re.S)
     if not m:
         return ("name", re.sub(r'\s+', ' ', t))
     args = split_top(m.group(2))
     if m.group(1) == "map" and len(args) == 2:
         return ("map", parse_type(args[0]), parse_type(args[1]))
-    return ("vector", parse_type(args[0]))
+    return (m.group(1), parse_type(args[0]))
+
+
+WIRE = {"LIST": 9, "MAP": 8, "SimpleList": 13, "BYTE": 0}
+
+def writer_skeleton(idl, mem):
+    """The codec calls of a generated WriteTo in source order, with the tag each of them must carry (C03: every member
+    under its declared tag, container elements under tag 0, map keys under 0 and values under 1, a container as LIST /
+    MAP / SimpleList head followed by its element count under tag 0): [(wire type of a WriteHead or None, tag or None)].
+    None for the tag: the call takes none (the byte payload of a SimpleList)."""
+    out = []
+    def walk(t, tag):
+        if t[0] == "map":
+            out.append(("MAP", tag)); out.append((None, 0))
+            walk(t[1], 0); walk(t[2], 1)
+        elif t[0] == "vector" and t[1] == ("name", "byte"):
+            out.append(("SimpleList", tag)); out.append(("BYTE", 0)); out.append((None, 0)); out.append((None, None))
+        elif t[0] == "vector":
+            out.append(("LIST", tag)); out.append((None, 0))
+            walk(t[1], 0)
+        else:
+            out.append((None, tag))  # scalar, string, enum, or a struct block
+    for tag, req, ity, name, dflt in sorted(mem):
+        t = parse_type(ity)
+        if t[0] == "array":
+            t = ("vector", t[1])
+        walk(t, tag)
+    return out
+
+def writer_skeleton_clauses(idl, mem):
+    o = []
+    sk = writer_skeleton(idl, mem)
+    for k, (wt, tag) in enumerate(sk):
+        if tag is None:
+            continue
+        c = "$2 == %d" % tag
+        if wt is not None:
+            c = "$1 == %d && " % WIRE[wt] + c
+        o.append("//@   site ).Write#%d assert [C03] %s" % (k, c))
+    o.append("//@   sites ).Write = %d" % len(sk))
+    return o
 
 def readblock_sites(idl, mem, src):
     """the ReadBlock calls of a generated ReadFrom in source order: (go type, is a map key/value temporary)"""
@@ -245,7 +302,7 @@ def readblock_sites(idl, mem, src):
     def walk(t, in_map):
         if t[0] == "map":
             walk(t[1], True); walk(t[2], True)
-        elif t[0] == "vector":
+        elif t[0] in ("vector", "array"):
             walk(t[1], False)
         elif t[1] in idl:
             out.append((t[1], in_map))
@@ -432,7 +489,17 @@ def gen(pkg):
     for ty, name, body in methods(src):
         if name == "WriteTo" and ty in idl and ty not in done:
             done.add(ty)
-            o += schema_contract(pkg, ty, idl[ty], go_fields(src, ty), idl, src)
+            sc = schema_contract(pkg, ty, idl[ty], go_fields(src, ty), idl, src)
+            sk = writer_skeleton_clauses(idl, idl[ty])
+            if sc:
+                # the tag skeleton goes into the WriteTo block of the functional contract (first "safety" line)
+                i = sc.index("//@   safety [C03]")
+                sc = sc[:i] + sk + sc[i:]
+                o += sc
+            else:
+                # members the functional derivation does not cover (maps, vectors of strings or structs, arrays):
+                # at least every codec call carries the tag and the wire type the IDL prescribes
+                o += ["//@ func (*%s).WriteTo" % ty, "//@   argsonly", "//@   noframe", "//@   allocates"] + sk + ["//"]
         if name == "ResetDefault":
             dfl = []
             if ty in idl:
